@@ -111,10 +111,10 @@ def run(ctx):
     # long random walks of the model (3 nodes, 6-8 vectors)
     scripts += ctx.tlc_gen("MC_VectorIdx", GEN.format(maxh=10 if q else 14, metrics=ALLM, view="", emit="", inv="SimEmit",
                                                       **dict(ids="{1,2,3}", ls="LS4", vecs="V6" if q else "V8", qs="Q3", keys="KeysABe", ks="{1,2,3}")),
-                           "walks", simulate=(150 if q else 1500, 16), workers=4)
+                           "walks", simulate=(100 if q else 1500, 16), workers=4)
     scripts = drop_prefixes(scripts)
     ctx.cov["scripts_after_prefix_removal"] = len(scripts)
-    scripts = cap(ctx, scripts, 9000 if q else 100000, "vector histories")
+    scripts = cap(ctx, scripts, 6000 if q else 100000, "vector histories")
     ctx.assume("2-D integer vectors with |coordinate| <= 3, no zero vector (cosine distance undefined); ties in exact arithmetic may be "
                "returned in any order (the implementation ranks in f32)",
                "every vector has the index's dimension; searches are issued only on declared indexes; k in {1,2,3}",
